@@ -64,11 +64,23 @@ pub fn adjust(s: &mut TypeSpec, d: &mut Dna) -> bool {
         let (lo, hi) = crate::gen::int_range(r);
         let has_fields = s.variants.iter().any(|v| v.shape != Shape::Unit);
         let with_c = has_fields && d.chance(20);
-        s.repr = Some(if with_c { format!("C, {r}") } else { r.to_string() });
+        // a field-less enum may also be `repr(C)` alone: its tag is then C's `int` or `unsigned int`, whichever holds all values
+        let c_alone = !has_fields && d.chance(20);
+        let c_unsigned = c_alone && d.chance(50);
+        s.repr = Some(if c_alone { "C".to_string() } else if with_c { format!("C, {r}") } else { r.to_string() });
         // `repr(C, ..)` enums with discriminants beyond C's int draw a future-compatibility warning about the definition itself
-        let (lo, hi) = if with_c { (lo.max(i32::MIN as i128), hi.min(i32::MAX as i128)) } else { (lo, hi) };
+        let (lo, hi) = if c_unsigned {
+            (0, u32::MAX as i128)
+        } else if c_alone {
+            (i32::MIN as i128, i32::MAX as i128)
+        } else if with_c {
+            (lo.max(i32::MIN as i128), hi.min(i32::MAX as i128))
+        } else {
+            (lo, hi)
+        };
+        let r = if c_alone { "C" } else { r };
         let nv = s.variants.len() as i128;
-        let mut cands: Vec<i128> = vec![lo, lo + 1, lo + nv, -129, -128, -127, -5, -2, -1, 0, 1, 2, 100, 126, 127, 128, 255, 256, 32767, 65535, hi - nv - 1, hi - nv, hi / 2];
+        let mut cands: Vec<i128> = vec![lo, lo + 1, lo + nv, 2147483647, 2147483648, 2147483649, 4294967290, -129, -128, -127, -5, -2, -1, 0, 1, 2, 100, 126, 127, 128, 255, 256, 32767, 65535, hi - nv - 1, hi - nv, hi / 2];
         cands.retain(|c| *c >= lo && *c <= hi - nv);
         for v in s.variants.iter_mut() {
             v.disc = if d.chance(65) { Some(*d.choose(&cands)) } else { None };
